@@ -59,6 +59,11 @@ def parseEv (fs : List String) : Option Ev :=
     match targetOf t, bit r, bit w with
     | some t, some r, some w => some (.setState t r w)
     | _, _, _ => none
+  | ["pclose", t] => (targetOf t).map .peerClose
+  | ["rdone", t, c] =>
+    match targetOf t, bit c with
+    | some t, some c => some (.responseDone t c)
+    | _, _ => none
   | ["err", t] => (targetOf t).map .setError
   | ["poke", t, "addr", h, p] =>
     match targetOf t, optNat h, optNat p with
